@@ -61,16 +61,18 @@ def unescape(s):
     return s.replace('\\"', '"').replace('\\\\', '\\')
 
 
-def tlc(cfg, module, scratch, overrides=None, simulate=None, workers=None, timeout=3600, coverage=False, deadlock=None, extra=None):
+def tlc(cfg, module, scratch, overrides=None, simulate=None, workers=None, timeout=3600, coverage=False, deadlock=None, extra=None, extra_files=None):
     """Run TLC; returns dict(rc, generated, distinct, violated, error, universe, histories, log).
     cfg is a file under spec/cfg; overrides replace 'NAME = value' lines."""
     work = tempfile.mkdtemp(prefix='tlc-', dir=scratch.dir)
     for f in os.listdir(SPEC):
         if f.endswith('.tla'):
             shutil.copy(os.path.join(SPEC, f), work)
+    for name, content in (extra_files or {}).items():
+        open(os.path.join(work, name), 'w').write(content)
     text = open(os.path.join(SPEC, 'cfg', cfg)).read()
     for k, v in (overrides or {}).items():
-        text, n = re.subn(r'(?m)^(\s*)%s\s*=.*$' % re.escape(k), r'\g<1>%s = %s' % (k, v), text)
+        text, n = re.subn(r'(?m)^(\s*)%s\s*(=|<-).*$' % re.escape(k), (r'\g<1>%s ' % k) + v.replace('\\', '\\\\') if v.startswith('<-') else (r'\g<1>%s = ' % k) + v.replace('\\', '\\\\'), text)
         if n != 1:
             raise Infra('override %s: %d matches in %s' % (k, n, cfg))
     open(os.path.join(work, 'run.cfg'), 'w').write(text)
@@ -232,3 +234,18 @@ def sample(items, n, rnd):
     if len(items) <= n:
         return list(items)
     return rnd.sample(items, n)
+
+
+def tla(v):
+    """JSON value -> TLA+ literal"""
+    if isinstance(v, bool):
+        return 'TRUE' if v else 'FALSE'
+    if isinstance(v, int):
+        return str(v)
+    if isinstance(v, str):
+        return '"%s"' % v
+    if isinstance(v, list):
+        return '<<' + ', '.join(tla(x) for x in v) + '>>'
+    if isinstance(v, dict):
+        return '[' + ', '.join('%s |-> %s' % (k, tla(x)) for k, x in v.items()) + ']'
+    raise ValueError(v)
